@@ -49,7 +49,7 @@ def x_outcome(resp):
     return resp.get('stdout', ''), rc, d
 
 
-def gen_script(seed, pid, idx, profiles=None, queries=True, printing=False):
+def gen_script(seed, pid, idx, profiles=None, queries=True, printing=False, unsupported_queries=0.0):
     """A valid script from the history generator with a configuration prefix."""
     r = sub_rng(seed, pid, idx, 'script-prof')
     prof = r.choice(profiles or gen.ALL_PROFILES)
@@ -75,7 +75,8 @@ def gen_script(seed, pid, idx, profiles=None, queries=True, printing=False):
     kw = dict(unsat_bias=0.3, named=0.4, nested_named=0.05, defines=0.05, queries=tuple(q))
     if not tags['incremental']:
         kw['max_push'] = 0
-    if prof not in gen.MODEL_PROFILES:
+    if prof not in gen.MODEL_PROFILES and not (sub_rng(seed, pid, idx, 'script-unsupported').random() < unsupported_queries):
+        # (C18 keeps them sometimes: a model query in an array logic is an unsupported request that must be answered with an error)
         kw['queries'] = tuple(x for x in q if x[0] not in ('get-model', 'get-value'))
     h = hist.gen_history(sub_rng(seed, pid, idx, 'script-hist'), prof, **kw)
     return hist.script_lines(h, opts), prof, tags
@@ -182,6 +183,45 @@ def lexical_state_at(text, pos):
     return st
 
 
+def lexical_states(text, positions):
+    """lexical_state_at for many (sorted or unsorted) offsets in one pass."""
+    want = sorted(set(positions))
+    out = {}
+    st = 'gap'
+    k = 0
+    n = len(text)
+    for i in range(n + 1):
+        while k < len(want) and want[k] <= i:
+            out[want[k]] = st
+            k += 1
+        if k >= len(want) or i >= n:
+            break
+        ch = text[i]
+        if st == 'comment':
+            if ch == '\n':
+                st = 'gap'
+        elif st == 'string':
+            if ch == '"':
+                st = 'gap'
+        elif st == 'qsym':
+            if ch == '|':
+                st = 'gap'
+        else:
+            if ch == ';':
+                st = 'comment'
+            elif ch == '"':
+                st = 'string'
+            elif ch == '|':
+                st = 'qsym'
+            elif ch in ' \t\r\n()':
+                st = 'gap'
+            else:
+                st = 'token'
+    for w in want[k:]:
+        out[w] = st
+    return out
+
+
 class C20(Check):
     pid = 'C20'
     technique = 'deterministic simulation of stdin delivery: the read(2) seam serves the script in seeded chunk sizes to the real main() in pipe mode; oracle = file mode on the same bytes'
@@ -218,8 +258,10 @@ class C20(Check):
         if xe:
             bump(res, 'F-chunk-reads', xe['reads'])
             inside = False
-            for bpos in xe.get('boundaries', [])[:-1]:
-                st = lexical_state_at(case['script'], bpos)
+            bounds = xe.get('boundaries', [])[:-1]
+            states = lexical_states(case['script'], bounds)
+            for bpos in bounds:
+                st = states[bpos]
                 bump(res, 'P-chunk-in-' + st)
                 if st != 'gap':
                     inside = True
@@ -450,7 +492,7 @@ class C18(Check):
             base = open(path, errors='replace').read()
             src = os.path.relpath(path, '/repo')
         else:
-            lines, prof, tags = gen_script(seed, self.pid, idx, queries=True)
+            lines, prof, tags = gen_script(seed, self.pid, idx, queries=True, unsupported_queries=0.5)
             base = '\n'.join(lines) + '\n'
             src = 'generated:' + prof
         rd = sub_rng(seed, self.pid, idx, 'damage')
